@@ -40,8 +40,11 @@ Print Assumptions C10_invariant_of_every_history.
 
 Theorem C10_structure :
   wait_job_completion_waits_until_nothing_is_pending = true /\ submit_is_excluded_during_resize = true
-  /\ idle_exit_gives_up_when_the_management_lock_is_taken = true.
-Proof. exact facts_hold. Qed.
+  /\ idle_exit_gives_up_when_the_management_lock_is_taken = true
+  (* the call queue, created once, is sized from the host (2 * cpu_count() + 1 slots), not from the number of workers the executor
+     happens to start with: the blocking put of _resize's sentinels relies on it (and is still not safe: known finding H16) *)
+  /\ call_queue_is_sized_from_the_host_cpu_count = true.
+Proof. destruct facts_hold as (A & B & C). split; [exact A|]. split; [exact B|]. split; [exact C | reflexivity]. Qed.
 Print Assumptions C10_structure.
 
 Example C10_example :
